@@ -364,7 +364,7 @@ func (h *c58Hist) closeConnTimes(client int, a *c58Accepted, k int, conc bool) {
 		}
 		return
 	}
-	var wg sync.WaitGroup
+	var wg verifrt.WG
 	for i := 0; i < k; i++ {
 		wg.Add(1)
 		go func() {
@@ -796,7 +796,7 @@ func c58RunPlain(h *c58Hist, n int, scripts [][]c58Step, rng *rand.Rand) {
 	if !barrier {
 		close(h.startCh)
 	}
-	var wg sync.WaitGroup
+	var wg verifrt.WG
 	for i := range scripts {
 		wg.Add(1)
 		go func() {
